@@ -246,6 +246,23 @@ func Corpus() []CorpusScenario {
 				{{Op: pipeline.Update, Obj: pglobal(map[string]string{"prometheus-port": "9101"})}},
 			},
 		},
+		{
+			// the TLS of a TCP service arrives through a separate ingress (only a spec.tls block)
+			// after the port exists; then an unrelated change rewrites haproxy.cfg: the bind of
+			// _front_tcp_7000 names crtlist_tcp_7000.list, which must have been written
+			Name: "15-tcp-service-tls-from-separate-ingress",
+			Opt:  Opt{},
+			H: [][]pipeline.Change{
+				creates(world.TLSSecret("ns1", "tls-valid", "a.example", 0),
+					svc("ns1", "svc1"), EndpointsRef("ns1", "svc1", "http", 8080, []string{"10.1.0.1"}, nil, 0),
+					svc("ns1", "svc2"), EndpointsRef("ns1", "svc2", "http", 8080, []string{"10.1.1.1"}, nil, 0),
+					ing("ns1", "ing1", map[string]string{"tcp-service-port": "7000"}, rule("", pth("/", "svc1"))),
+					ing("ns1", "ing3", nil, rule("a.example", pth("/", "svc2")))),
+				creates(ingTLS(ing("ns1", "ing2", map[string]string{"tcp-service-port": "7000"}), "tls-valid")),
+				creates(ing("ns1", "ing4", nil, rule("b.example", pth("/", "svc2")))),
+				{{Op: pipeline.Update, Obj: EndpointsRef("ns1", "svc1", "http", 8080, []string{"10.1.0.1", "10.1.0.2"}, nil, 0)}},
+			},
+		},
 	}
 }
 
